@@ -31,6 +31,9 @@ pub struct Violation {
     pub case: u64,
     pub message: String,
     pub kind: &'static str, // "oracle" | "panic"
+    /// cases the same worker thread executed just before this one (most recent last): a violation
+    /// caused by library state carried from call to call needs them to reproduce
+    pub history: Vec<u64>,
 }
 
 #[derive(Default)]
@@ -54,6 +57,8 @@ pub struct Ctx {
     pub scale: f64,
     pub lane: String,
     pub replay: Option<(String, u64)>,
+    /// cases to execute (silently, same thread) before the replayed one
+    pub replay_history: Vec<u64>,
     /// per-case watchdog budget in seconds (already multiplied by the lane's slow-down factor)
     case_timeout_s: AtomicU64,
     lane_factor: u64,
@@ -141,6 +146,7 @@ impl Ctx {
             scale,
             lane: lane.to_string(),
             replay: None,
+            replay_history: Vec::new(),
             case_timeout_s: AtomicU64::new(60 * Self::lane_factor_of(lane)),
             lane_factor: Self::lane_factor_of(lane),
             shard: (0, 1),
@@ -215,13 +221,14 @@ impl Ctx {
             .push((key.to_string(), min));
     }
 
-    pub fn violation(&self, group: &str, case: u64, message: String, kind: &'static str) {
+    pub fn violation(&self, group: &str, case: u64, message: String, kind: &'static str, history: Vec<u64>) {
         let mut st = self.state.lock().unwrap();
         st.violations.push(Violation {
             group: group.to_string(),
             case,
             message,
             kind,
+            history,
         });
         if st.violations.len() >= 3 {
             self.stop.store(true, Ordering::SeqCst);
@@ -281,6 +288,27 @@ impl Ctx {
                     let mut distinct: Vec<u64> = Vec::new();
                     let mut samples: Vec<Value> = Vec::new();
                     let mut evals = 0u64;
+                    let mut hist: std::collections::VecDeque<u64> = std::collections::VecDeque::new();
+                    if verbose {
+                        // replay: first re-execute what the worker had executed before the failing case
+                        for &h in &self.replay_history {
+                            let mut sample: Option<Value> = None;
+                            let mut case = Case {
+                                rng: Rng::for_case(&self.prop, group, self.seed, h),
+                                idx: h,
+                                tier: self.tier,
+                                verbose: false,
+                                lane_miri: self.is_miri(),
+                                counters: &mut counters,
+                                distinct: &mut distinct,
+                                sample: &mut sample,
+                                want_sample: false,
+                            };
+                            QUIET_PANIC.with(|q| *q.borrow_mut() = true);
+                            let _ = catch_unwind(AssertUnwindSafe(|| f(&mut case)));
+                            QUIET_PANIC.with(|q| *q.borrow_mut() = false);
+                        }
+                    }
                     'outer: loop {
                         let lo = next.fetch_add(chunk, Ordering::SeqCst);
                         if lo >= last {
@@ -316,13 +344,17 @@ impl Ctx {
                             evals += 1;
                             match r {
                                 Ok(Ok(())) => {}
-                                Ok(Err(msg)) => self.violation(group, idx, msg, "oracle"),
+                                Ok(Err(msg)) => self.violation(group, idx, msg, "oracle", hist.iter().cloned().collect()),
                                 Err(_) => {
                                     let msg = LAST_PANIC
                                         .with(|p| p.borrow_mut().take())
                                         .unwrap_or_else(|| "panic".to_string());
-                                    self.violation(group, idx, format!("panic: {}", msg), "panic");
+                                    self.violation(group, idx, format!("panic: {}", msg), "panic", hist.iter().cloned().collect());
                                 }
+                            }
+                            hist.push_back(idx);
+                            if hist.len() > 48 {
+                                hist.pop_front();
                             }
                             if let Some(s) = sample {
                                 samples_taken.fetch_add(1, Ordering::Relaxed);
@@ -384,6 +416,10 @@ impl Ctx {
     }
 
     pub fn write_replay(&self, group: &str, case: u64, message: &str, kind: &str) -> String {
+        self.write_replay_h(group, case, message, kind, &[])
+    }
+
+    pub fn write_replay_h(&self, group: &str, case: u64, message: &str, kind: &str, history: &[u64]) -> String {
         let dir = format!("{}/replays", self.verif_dir);
         let _ = std::fs::create_dir_all(&dir);
         let path = format!(
@@ -405,6 +441,8 @@ impl Ctx {
             "case": case,
             "kind": kind,
             "message": message,
+            "history": history,
+            "note": "history = cases the same worker thread ran just before (same group); the replay re-executes them first, so that failures caused by library state carried between calls reproduce",
             "replay_cmd": format!("./check {} --replay {}", self.prop, path),
         });
         let _ = std::fs::write(&path, serde_json::to_string_pretty(&v).unwrap());
@@ -461,7 +499,7 @@ impl Ctx {
                 let path = if self.replay.is_some() {
                     "(replay)".to_string()
                 } else {
-                    self.write_replay(&v.group, v.case, &v.message, v.kind)
+                    self.write_replay_h(&v.group, v.case, &v.message, v.kind, &v.history)
                 };
                 let mut m = v.message.clone();
                 if m.len() > 1500 {
